@@ -413,7 +413,7 @@ func c15R4(p *core.Program, r *core.Report) {
 			"Walk does not unconditionally recurse into every element of r.TypeList: nested package paths would not be rewritten/registered")
 	}
 
-	pn := p.FuncByName("pkg/namer", "(*rawNamer).processName")
+	pn := namerRewriter(p) // by role: the function of pkg/namer that parses the name with ParseTypeRef
 	if pn == nil {
 		r.Anchor(rule, "pkg/namer.(*rawNamer).processName")
 		return
@@ -467,8 +467,21 @@ func c15R4(p *core.Program, r *core.Report) {
 		}
 		return false
 	}
-	isOwnPkg := func(e ast.Expr) bool {
-		return isRole(p, core.FieldOf(info, e), "namer.pkgPath")
+	isOwnPkg := func(e ast.Expr) bool { return ownPathOperand(p, in, e) }
+	pairs := registerAndNameHelpers(p)
+	// the path whose import name is asked for: the argument of LocalNameOf, or of a register-and-name helper
+	askedPath := func(e ast.Expr) (ast.Expr, bool) {
+		c, ok := ast.Unparen(e).(*ast.CallExpr)
+		if !ok {
+			return nil, false
+		}
+		if trackerCall(p, info, c) == "LocalNameOf" && len(c.Args) == 1 {
+			return c.Args[0], true
+		}
+		if ph, isPair := pairs[core.CalleeFunc(info, c)]; isPair && len(c.Args) > ph.Pa {
+			return c.Args[ph.Pa], true
+		}
+		return nil, false
 	}
 	isEmpty := func(e ast.Expr) bool { return constStrIs(info, e, "") }
 	var blank, rewrite *ast.AssignStmt
@@ -489,7 +502,7 @@ func c15R4(p *core.Program, r *core.Report) {
 		}
 		if constStrIs(info, as.Rhs[0], "") {
 			blank = as
-		} else if c := core.AsCall(info, as.Rhs[0], "("+core.G("pkg/namer.ImportTracker")+").LocalNameOf"); c != nil {
+		} else if _, ok := askedPath(as.Rhs[0]); ok {
 			rewrite = as
 		} else {
 			others = append(others, as)
@@ -523,8 +536,8 @@ func c15R4(p *core.Program, r *core.Report) {
 	} else {
 		r.Check(says(g.FactsAt(g.PointOf(rewrite)), isOwnPkg, false), rule, pn, "foreign argument is rewritten to its import name", rewrite.Pos(),
 			"rewrite executes only when the path differs from the own package", "own-package arguments can reach the import rewrite")
-		call := core.AsCall(info, rewrite.Rhs[0], "("+core.G("pkg/namer.ImportTracker")+").LocalNameOf")
-		r.Check(len(call.Args) == 1 && isPkgPathOfX(call.Args[0]), rule, pn, "LocalNameOf is asked for the node's own path", rewrite.Pos(),
+		asked, _ := askedPath(rewrite.Rhs[0])
+		r.Check(asked != nil && isPkgPathOfX(asked), rule, pn, "LocalNameOf is asked for the node's own path", rewrite.Pos(),
 			"argument is x.PkgPath", "LocalNameOf is called with something else than the visited node's path")
 	}
 	// every visit with a non-empty path reaches blank or rewrite
